@@ -636,6 +636,7 @@ def extract(cls: type) -> dict:
             alt = p.default  # the differential probe goes back to the default where there is one
         spec["settings"].append({"name": p.name, "attr": None, "on_ctx": False, "is_param": True, "conv": "id",
                                  "has_default": p.default is not inspect.Parameter.empty,
+                                 "default": NoFalsy if p.default is inspect.Parameter.empty else p.default,
                                  "sentinel": sent, "alt": alt, "falsy": falsy_param(p.name, ann, p.default), "emit": []})
     if is_driver and hasattr(cls, "add_move"):
         spec["slots"].append({"name": "moves", "shape": "dict", "probe_kind": "storage", "is_param": False,
@@ -692,8 +693,8 @@ def extract(cls: type) -> dict:
         idx += 1
         sent, alt = tunable_sentinels(value, idx)
         spec["settings"].append({"name": name, "attr": attr, "on_ctx": on_ctx, "is_param": False, "conv": "id",
-                                 "has_default": True, "sentinel": sent, "alt": alt, "falsy": falsy_tunable(value),
-                                 "emit": []})
+                                 "has_default": True, "default": copy.deepcopy(value), "sentinel": sent, "alt": alt,
+                                 "falsy": falsy_tunable(value), "emit": []})
         taken.add((on_ctx, attr))
 
     for a in instance_attrs(obj):
